@@ -498,13 +498,15 @@ def updates_to_loops(fn) -> int:
     used = {n.id for n in ast.walk(fn) if isinstance(n, ast.Name)}
     for body in _stmt_blocks(fn):
         for i, s in enumerate(body):
-            if not (isinstance(s, ast.Expr) and isinstance(s.value, ast.Call) and isinstance(s.value.func, ast.Attribute) and s.value.func.attr in ("update", "extend")
+            if not (isinstance(s, ast.Expr) and isinstance(s.value, ast.Call) and isinstance(s.value.func, ast.Attribute) and s.value.func.attr in ("update", "extend", "writelines")
                     and isinstance(s.value.func.value, ast.Name) and len(s.value.args) == 1 and not s.value.keywords):
                 continue
             comp = s.value.args[0]
             if not isinstance(comp, (ast.GeneratorExp, ast.SetComp, ast.ListComp)) or len(comp.generators) != 1 or comp.generators[0].is_async:
                 continue
             gen = comp.generators[0]
+            if s.value.func.attr == "update" and isinstance(comp.elt, ast.Tuple):
+                continue  # dict.update(<pairs>)
             inside = {id(n) for n in ast.walk(comp)}
             tnames = {n.id for n in ast.walk(gen.target) if isinstance(n, ast.Name)}
             outside = {n.id for n in ast.walk(fn) if isinstance(n, ast.Name) and id(n) not in inside}
@@ -516,7 +518,7 @@ def updates_to_loops(fn) -> int:
                     n.id = ren[n.id]
             # the iterable is evaluated outside the comprehension scope: keep its names
             gen.iter = ast_copy(comp.generators[0].iter)
-            call = ast.Expr(value=ast.Call(func=ast.Attribute(value=ast_copy(s.value.func.value), attr="add" if s.value.func.attr == "update" else "append", ctx=ast.Load()), args=[comp2.elt], keywords=[]))
+            call = ast.Expr(value=ast.Call(func=ast.Attribute(value=ast_copy(s.value.func.value), attr={"update": "add", "extend": "append", "writelines": "write"}[s.value.func.attr], ctx=ast.Load()), args=[comp2.elt], keywords=[]))
             inner = [call]
             for c in reversed(gen.ifs):
                 inner = [ast.If(test=c, body=inner, orelse=[])]
@@ -761,5 +763,58 @@ def searches_to_loops(fn) -> int:
             ast.copy_location(loop, s)
             ast.fix_missing_locations(loop)
             body[i] = loop
+            count += 1
+    return count
+
+
+def genexp_loops(fn) -> int:
+    """xs = (t for t in it if c) ; for v in xs: B   ->   for v in it: if c[v/t]: B     (xs used nowhere else; also inline `for v in (t for t in it if c)`)"""
+    count = 0
+    loads: Dict[str, int] = {}
+    stores: Dict[str, int] = {}
+    for n in ast.walk(fn):
+        if isinstance(n, ast.Name):
+            d = loads if isinstance(n.ctx, ast.Load) else stores
+            d[n.id] = d.get(n.id, 0) + 1
+    for body in _stmt_blocks(fn):
+        i = 0
+        while i < len(body):
+            s = body[i]
+            i += 1
+            if not (isinstance(s, ast.For) and not s.orelse and isinstance(s.target, ast.Name)):
+                continue
+            comp = None
+            drop = None
+            if isinstance(s.iter, ast.GeneratorExp):
+                comp = s.iter
+            elif isinstance(s.iter, ast.Name) and i >= 2:
+                prev = body[i - 2]
+                nm = s.iter.id
+                if isinstance(prev, ast.Assign) and len(prev.targets) == 1 and isinstance(prev.targets[0], ast.Name) and prev.targets[0].id == nm \
+                        and isinstance(prev.value, ast.GeneratorExp) and loads.get(nm, 0) == 1 and stores.get(nm, 0) == 1:
+                    comp = prev.value
+                    drop = i - 2
+            if comp is None or len(comp.generators) != 1 or comp.generators[0].is_async:
+                continue
+            gen = comp.generators[0]
+            if not (isinstance(gen.target, ast.Name) and isinstance(comp.elt, ast.Name) and comp.elt.id == gen.target.id):
+                continue
+            v = s.target.id
+            if any(isinstance(n, ast.Name) and n.id == v for n in ast.walk(comp)) and v != gen.target.id:
+                continue
+            conds = [ast_copy(c) for c in gen.ifs]
+            for c in conds:
+                for n in ast.walk(c):
+                    if isinstance(n, ast.Name) and n.id == gen.target.id:
+                        n.id = v
+            inner = s.body
+            for c in reversed(conds):
+                inner = [ast.If(test=c, body=inner, orelse=[])]
+            s.iter = gen.iter
+            s.body = inner
+            ast.fix_missing_locations(s)
+            if drop is not None:
+                del body[drop]
+                i -= 1
             count += 1
     return count
